@@ -154,6 +154,8 @@ def mutate(text, muts, rng):
 
 SNIPPETS = [
     'import sys\nlen\nsys\nsys.path\nprint(len, sys)\n',
+    # dotted imports: the head name is a wrapper object, not a module with a file
+    'import os.path\nimport json.decoder, xml.dom.minidom as md\nos\nos.path\njson\njson.decoder\nmd\nxml\nfrom os import path as p2\np2\n',
     'class A:\n    def m(self):\n        for self.x in []:\n            pass\n        with open("f") as self.f:\n            pass\n        return [0 for self.y in []]\n',
     'return 1\nclass K:\n    return 2\nyield 3\n',
     'from nosuchmod9 import thing\nimport nosuchmod9\nthing\nnosuchmod9.attr\n',
